@@ -224,11 +224,26 @@ func runRegistry(w *World, rs *RunSpec) {
 			scripts[i] = append(scripts[i], cop{kind: k, pool: pool, wait: time.Duration(1+c.Intn(5, "regwait")) * time.Millisecond})
 		}
 	}
-	chanFor := func(pool string) grpctunnel.ReverseClientConnInterface {
+	fresh := func(pool string) grpctunnel.ReverseClientConnInterface {
 		if pool == "*" {
 			return h.AsChannel()
 		}
 		return h.KeyAsChannel(keyAny(strings.TrimPrefix(pool, "k:")))
+	}
+	// Half of the uses go through channel values obtained once, before any
+	// tunnel exists, and kept for the whole run (an application that builds its
+	// stubs at start-up); the other half ask for the channel each time.
+	held := map[string]grpctunnel.ReverseClientConnInterface{}
+	for _, pool := range []string{"*", "k:", "k:a", "k:b"} {
+		held[pool] = fresh(pool)
+	}
+	uses := 0
+	chanFor := func(pool string) grpctunnel.ReverseClientConnInterface {
+		uses++
+		if ch := held[pool]; ch != nil && uses%2 == 0 {
+			return ch
+		}
+		return fresh(pool)
 	}
 	// one routed unary RPC; returns the tunnel that served it (-1: none)
 	route := func(pool string, client int) (int, error) {
